@@ -14,6 +14,7 @@ structure LInv (dp : Path) (w : World) : Prop where
   fresh : NextFresh w.fs
   dest : w.fs.isDir dp = true
   names : NameWF w.fs
+  tree : TreeWF w.fs
 
 def LStepOK (dp : Path) (w w' : World) : Prop := Confined dp w.fs w'.fs ∧ LInv dp w'
 
@@ -54,25 +55,26 @@ theorem LInv.parent_under {dp : Path} {w : World} (h : LInv dp w) {q : Path} (hu
   exact under_dropLast hu hne
 
 theorem LStepOK.create (dp : Path) (w : World) (h : LInv dp w) (q : Path) (n : Inode)
-    (hu : under dp q = true) (hn : w.fs.lookup q = none) (hk : n.kind ≠ .sym) (hq : ∀ c ∈ q, Norm c) :
+    (hu : under dp q = true) (hn : w.fs.lookup q = none) (hk : n.kind ≠ .sym) (hq : ∀ c ∈ q, Norm c)
+    (hpd : w.fs.isDir q.dropLast = true) :
     LStepOK dp w { w with fs := w.fs.create q n } :=
   ⟨create_confined dp w.fs q n hn hu (h.parent_under hu hn) h.fresh,
    ⟨h.root, h.nosym.of_kindsFrom (kindsFrom_create _ w.fs q n hn h.fresh hk), h.fresh.create q n hn,
-    dirKept_create dp w.fs q n hn h.fresh h.dest, h.names.create q n hn hq⟩⟩
+    dirKept_create dp w.fs q n hn h.fresh h.dest, h.names.create q n hn hq, h.tree.create q n hn h.fresh hpd⟩⟩
 
 theorem LStepOK.modInode (dp : Path) (w : World) (h : LInv dp w) (q : Path) (i : Ino) (f : Inode → Inode)
     (hu : under dp q = true) (hq : w.fs.lookup q = some i) (hf : ∀ n, (f n).kind = n.kind) :
     LStepOK dp w { w with fs := w.fs.modInode i f } :=
   ⟨modInode_confined dp w.fs i f q hq hu,
    ⟨h.root, h.nosym.of_kindsFrom (kindsFrom_modInode _ w.fs i f hf), h.fresh.modInode i f,
-    dirKept_modInode dp w.fs i f hf h.dest, h.names.modInode i f⟩⟩
+    dirKept_modInode dp w.fs i f hf h.dest, h.names.modInode i f, h.tree.modInode i f hf⟩⟩
 
 theorem LStepOK.setInode (dp : Path) (w : World) (h : LInv dp w) (q : Path) (i : Ino) (n m : Inode)
     (hu : under dp q = true) (hq : w.fs.lookup q = some i) (hi : w.fs.inode i = some n) (hk : m.kind = n.kind) :
     LStepOK dp w { w with fs := w.fs.setInode i m } :=
   ⟨setInode_confined dp w.fs i m q hq hu,
    ⟨h.root, h.nosym.of_kindsFrom (kindsFrom_setInode _ w.fs i n m hi hk q hq), h.fresh.setInode i m,
-    dirKept_setInode dp w.fs i n m hi hk h.dest, h.names.setInode i m⟩⟩
+    dirKept_setInode dp w.fs i n m hi hk h.dest, h.names.setInode i m, h.tree.setInode i n m hi hk⟩⟩
 
 theorem mkdirOne_lex (dp : Path) (w : World) (p : Str) (perm : Nat) (h : LInv dp w) (hp : LexArg dp p) :
     LStepOK dp w (mkdirOne w p perm).2 := by
@@ -85,8 +87,9 @@ theorem mkdirOne_lex (dp : Path) (w : World) (p : Str) (perm : Nat) (h : LInv dp
     · rename_i hex
       split
       · exact LStepOK.same dp w h
-      · exact LStepOK.create dp w h q _ (h.under_of_resolveC hp hq).2 (isSome_false_none hex) (by simp)
-          (by rw [(h.under_of_resolveC hp hq).1]; exact hp.norm)
+      · rename_i hpd
+        exact LStepOK.create dp w h q _ (h.under_of_resolveC hp hq).2 (isSome_false_none hex) (by simp)
+          (by rw [(h.under_of_resolveC hp hq).1]; exact hp.norm) (by simpa using hpd)
 
 /-- the path arguments of a mutating call lie lexically beneath `dp`; no symbolic link is created, the
     thread root is not changed, and nothing is removed at `dp` itself -/
@@ -131,7 +134,7 @@ theorem step_lex (dp : Path) (w : World) (s : Sys) (h : LInv dp w) (hs : SysLex 
     all_goals exact LStepOK.same dp w h
   | setUmask m =>
     simp only [step]
-    exact ⟨Confined.refl _ _, ⟨h.root, h.nosym, h.fresh, h.dest, h.names⟩⟩
+    exact ⟨Confined.refl _ _, ⟨h.root, h.nosym, h.fresh, h.dest, h.names, h.tree⟩⟩
   | mkdir p perm =>
     simp only [step]
     exact mkdirOne_lex dp w p perm h hs
@@ -148,8 +151,9 @@ theorem step_lex (dp : Path) (w : World) (s : Sys) (h : LInv dp w) (hs : SysLex 
       · rename_i hex
         split
         · exact LStepOK.same dp w h
-        · exact LStepOK.create dp w h q _ (h.under_of_resolveC hs.1 hq).2 (isSome_false_none hex) hs.2
-            (by rw [(h.under_of_resolveC hs.1 hq).1]; exact hs.1.norm)
+        · rename_i hpd
+          exact LStepOK.create dp w h q _ (h.under_of_resolveC hs.1 hq).2 (isSome_false_none hex) hs.2
+            (by rw [(h.under_of_resolveC hs.1 hq).1]; exact hs.1.norm) (by simpa using hpd)
   | mkdtemp dir pfx =>
     simp only [step]
     split
@@ -160,8 +164,9 @@ theorem step_lex (dp : Path) (w : World) (s : Sys) (h : LInv dp w) (hs : SysLex 
       · rename_i hex
         split
         · exact LStepOK.same dp w h
-        · exact LStepOK.create dp w h q _ (h.under_of_resolve hs hq).2 (isSome_false_none hex) (by simp)
-            (by rw [(h.under_of_resolve hs hq).1]; exact hs.norm)
+        · rename_i hpd
+          exact LStepOK.create dp w h q _ (h.under_of_resolve hs hq).2 (isSome_false_none hex) (by simp)
+            (by rw [(h.under_of_resolve hs hq).1]; exact hs.norm) (by simpa using hpd)
   | createWrite p perm data =>
     simp only [step]
     split
@@ -183,8 +188,9 @@ theorem step_lex (dp : Path) (w : World) (s : Sys) (h : LInv dp w) (hs : SysLex 
       · rename_i hnone
         split
         · exact LStepOK.same dp w h
-        · exact LStepOK.create dp w h q _ hu hnone (by simp)
-            (by rw [(h.under_of_resolve hs hq).1]; exact hs.norm)
+        · rename_i hpd
+          exact LStepOK.create dp w h q _ hu hnone (by simp)
+            (by rw [(h.under_of_resolve hs hq).1]; exact hs.norm) (by simpa using hpd)
   | link old new =>
     simp only [step]
     split
@@ -201,13 +207,15 @@ theorem step_lex (dp : Path) (w : World) (s : Sys) (h : LInv dp w) (hs : SysLex 
           · rename_i hex
             split
             · exact LStepOK.same dp w h
-            · have hun := (h.under_of_resolveC hs.2 hqn).2
+            · rename_i hpd
+              have hun := (h.under_of_resolveC hs.2 hqn).2
               have huo := (h.under_of_resolve hs.1 hqo).2
               have hnone := isSome_false_none hex
               exact ⟨addName_confined dp w.fs qn qo i hnone hun (h.parent_under hun hnone) hi huo,
                 ⟨h.root, h.nosym.of_kindsFrom (kindsFrom_addName _ w.fs qn qo i hnone hi),
                  h.fresh.addName qn qo i hnone hi, dirKept_addName dp w.fs qn i hnone h.dest,
-                 h.names.addName qn i hnone (by rw [(h.under_of_resolveC hs.2 hqn).1]; exact hs.2.norm)⟩⟩
+                 h.names.addName qn i hnone (by rw [(h.under_of_resolveC hs.2 hqn).1]; exact hs.2.norm),
+                 h.tree.addName qn qo i hnone hi (by simpa using hpd)⟩⟩
   | chown p uid gid follow =>
     simp only [step]
     split
@@ -275,6 +283,6 @@ theorem step_lex (dp : Path) (w : World) (s : Sys) (h : LInv dp w) (hs : SysLex 
             exact hne hu.symm
           · exact ⟨removeSubtree_confined dp w.fs q hu (under_dropLast hu hne),
               ⟨h.root, h.nosym.of_kindsFrom (kindsFrom_removeSubtree _ w.fs q), h.fresh.removeSubtree q,
-               dirKept_removeSubtree dp w.fs q hu hne h.dest, h.names.removeSubtree q⟩⟩
+               dirKept_removeSubtree dp w.fs q hu hne h.dest, h.names.removeSubtree q, h.tree.removeSubtree q⟩⟩
 
 end GA
